@@ -209,8 +209,13 @@ func Sign(modName, inPath, outPath string, cert *certloader.Certificate, hash cr
 
 // Verify runs the signer's verifier (integrity on, chain off unless a pool is given).
 func Verify(modName, path string, cert *certloader.Certificate, noDigests bool) ([]*signers.Signature, error) {
+	return VerifyContent(modName, path, "", cert, noDigests)
+}
+
+// VerifyContent: as Verify; content names the file a detached signature covers (relic verify --content)
+func VerifyContent(modName, path, content string, cert *certloader.Certificate, noDigests bool) ([]*signers.Signature, error) {
 	mod := signers.ByName(modName)
-	if mod == nil || mod.Verify == nil {
+	if mod == nil || (mod.Verify == nil && mod.VerifyStream == nil) {
 		return nil, fmt.Errorf("no verifier %s", modName)
 	}
 	f, err := os.Open(path)
@@ -218,12 +223,15 @@ func Verify(modName, path string, cert *certloader.Certificate, noDigests bool) 
 		return nil, err
 	}
 	defer f.Close()
-	opts := signers.VerifyOpts{FileName: path, NoDigests: noDigests, NoChain: true}
+	opts := signers.VerifyOpts{FileName: path, NoDigests: noDigests, NoChain: true, Content: content}
 	if cert != nil && cert.PgpKey != nil {
 		opts.TrustedPgp = openpgp.EntityList{cert.PgpKey}
 	}
 	if cert != nil && cert.Leaf != nil {
 		opts.TrustedX509 = []*x509.Certificate{cert.Leaf}
+	}
+	if mod.VerifyStream != nil { // cmdline/verify prefers the streaming verifier
+		return mod.VerifyStream(f, opts)
 	}
 	return mod.Verify(f, opts)
 }
